@@ -139,10 +139,11 @@ EDGES = [
     (r"^<volatile_memory::VolatileSlice<'_, B> as bytes::Bytes<usize>>::(read_volatile_from|write_volatile_to)$", r"unwrap",
      r"^Result::unwrap\(VolatileSlice::subslice\(ok\(VolatileSlice::offset\(\$1,\$2\)\),0,cmp::min\(\$4,VolatileSlice::len\(ok\(VolatileSlice::offset\(\$1,\$2\)\)\)\)\)\)$", "I",
      "subslice(0, min(len, count)) of the very slice whose len is taken: 0 + min(len, count) <= len"),
-    (VM + r"VolatileArrayRef::to_slice$", r"Overflow:Mul", r"^\$1\.nelem,VolatileArrayRef::element_size\(\$1\)$", "N",
-     "constructor invariant: get_array_ref checked nelem*size_of::<T>() <= isize::MAX (C01 R1.4); `new`/`with_bitmap` are unsafe"),
-    (VM + r"VolatileArrayRef::(copy_to_volatile_slice|ptr_guard|ptr_guard_mut)$", r"Overflow:Mul", r"^VolatileArrayRef::element_size\(\$1\),VolatileArrayRef::len\(\$1\)$", "N",
-     "constructor invariant as for to_slice: nelem*size_of::<T>() <= isize::MAX"),
+    (VM + r"VolatileArrayRef::\w+$", r"Overflow:Mul",
+     r"^(?:(?:\$1\.nelem|VolatileArrayRef::len\(\$1\)),(?:VolatileArrayRef::element_size\(\$1\)|mem::size_of<T>\(\))"
+     r"|(?:VolatileArrayRef::element_size\(\$1\)|mem::size_of<T>\(\)),(?:\$1\.nelem|VolatileArrayRef::len\(\$1\)))$", "N",
+     "type invariant of VolatileArrayRef<T>, wherever in its impl the byte size is recomputed: get_array_ref checked nelem*size_of::<T>() <= "
+     "isize::MAX (C01 R1.4); `new`/`with_bitmap` are unsafe"),
     (VM + r"VolatileArrayRef::ref_at$", r"diverge", r"^panic!assert$", "P", "documented: panics when index is out of range (program logic)"),
     (VM + r"VolatileArrayRef::ref_at$", r"Overflow:Mul", r"^\$2,VolatileArrayRef::element_size\(\$1\)$", "N",
      "index < nelem dominates and nelem*size_of::<T>() fits (constructor invariant)", r"Lt\(\$2,\$1\.nelem\)"),
